@@ -26,6 +26,7 @@ RULE = ("metamorphic: each call spec (all iterator tools, groupby operation sequ
 RULE += (' Also: source flavours async_class_bare / async_class_future (non-coroutine awaitable from __anext__) ; ExitStack variants with enter_context of plain vs asynchronous managers whose enter may fail; all probe class sources, locks and callable objects are falsy and report len() == 0.')
 RULE += (' Also: a callable that fails at its k-th call (incl. StopIteration / StopAsyncIteration) for every flavour of callable.')
 RULE += (' Also: a source failing at its k-th use (AttributeError, TypeError, KeyError, ...) for every flavour of source; asynctools.any_iter; iterables that are not iterators.')
+RULE += (' Also: scoped_iter blocks (closing tools on the handle, then the rest) over every flavour of source.')
 ASSUMPTIONS = ["baseline (list + def) behaviour itself is judged by C01/C02, not here"]
 EXHAUSTIVE = {"quick": False, "thorough": False}
 N_SPECS = {"quick": 6000, "thorough": 200000}
